@@ -44,13 +44,27 @@ def r19_1(ctx: Ctx):
     obs = []
     for name in ("pickle_dump", "pickle_load"):
         m = ctx.prog.own_method("DemeTree", name)
-        effs = ctx.eff.of(m)
+        effs = set(ctx.eff.of(m))
+        via = {}
+        if name == "pickle_load":
+            # the loaded object is a DemeTree: methods called on it are part of the operation
+            ldefs = local_defs(m)
+            loaded = {k for k, ds in ldefs.items() if any(isinstance(d_, ast.Call) and isinstance(d_.func, ast.Attribute) and d_.func.attr in ("load", "loads") for d_ in ds)}
+            tree_cls = ctx.prog.cls("DemeTree")
+            for c in body_walk(m.node):
+                if isinstance(c, ast.Call) and isinstance(c.func, ast.Attribute) and isinstance(c.func.value, ast.Name) and c.func.value.id in loaded:
+                    g = ctx.prog.lookup_method(tree_cls, c.func.attr)
+                    if g is not None:
+                        for e in ctx.eff.of(g):
+                            if e not in effs:
+                                effs.add(e)
+                                via[e] = g
         # RNG-NANTIE: comparing two individuals whose fitness values are both NaN flips a coin on Python's global stream
         # (FunctionProblem.worse_than): a snapshot operation that orders individuals changes the global random state
-        bad = sorted(e for e in effs if e[0] not in ("IO", "LOG"))
+        bad = sorted((e for e in effs if e[0] not in ("IO", "LOG")), key=lambda e: ({"EVAL": 0, "WRITE": 1, "RNG": 2, "RNG-NANTIE": 3, "SEED": 2}.get(e[0], 5 if e[0] != "UNKNOWN" else 9), e))
         if bad:
             e = bad[0]
-            obs.append(ctx.ob("R19.1", m, m.node, status=VIOLATION if e[0] != "UNKNOWN" else INCONCLUSIVE, detail=f"DemeTree.{name} is not a pure snapshot operation: {e[0]} {e[1]}" + (" (it compares individuals; a NaN-vs-NaN comparison draws from Python's global random stream, so dumping changes the random state of the live run)" if e[0] == "RNG-NANTIE" else ""), witness=ctx.eff.chain(m, e), construct=f"{name}:{e[0]}"))
+            obs.append(ctx.ob("R19.1", m, m.node, status=VIOLATION if e[0] != "UNKNOWN" else INCONCLUSIVE, detail=f"DemeTree.{name} is not a pure snapshot operation: {e[0]} {e[1]}" + (f" (also: {', '.join(sorted({b[0] for b in bad[1:]}))})" if len(bad) > 1 else "") + (" - the objective is evaluated: the restored tree's evaluation counters / budget differ from the dumped ones, and an objective with side effects is run" if e[0] == "EVAL" else "") + (" (it compares individuals; a NaN-vs-NaN comparison draws from Python's global random stream, so dumping changes the random state of the live run)" if e[0] == "RNG-NANTIE" else ""), witness=([f"{m.short} calls {via[e].short} on the loaded tree"] + ctx.eff.chain(via[e], e)) if e in via else ctx.eff.chain(m, e), construct=f"{name}:{e[0]}"))
         else:
             obs.append(ctx.ob("R19.1", m, m.node, detail=f"{name}: effects {sorted({e[0] for e in effs})}", construct=name))
     d = ctx.prog.own_method("DemeTree", "pickle_dump")
@@ -296,4 +310,49 @@ def r19_6(ctx: Ctx):
     return obs
 
 
-RULES = [("R19.1", r19_1, 5), ("R19.2", r19_2, 2), ("R19.3", r19_3, 2), ("R19.4", r19_4, 1), ("R19.5", r19_5, 1), ("R19.6", r19_6, 1)]
+def r19_7(ctx: Ctx):
+    """R19.7 no decision rests on the IDENTITY of a value that a snapshot stores by value: `x is np.inf`, `x is ROOT_ID`,
+    `x is not SENTINEL_FLOAT` hold in the live process because the attribute still refers to the very object it was
+    assigned from; pickle writes floats, ints, strings and tuples by value, so in the restored tree the attribute is an equal
+    but DIFFERENT object and the test flips - the restored run takes another branch than the dumped one would have."""
+    obs = []
+    n = 0
+    for f in ctx.prog.all_functions():
+        if f.name == "<module>" or f.module.name.startswith("pyhms.utils.visualisation"):
+            continue
+        mod_consts = {}
+        mf = ctx.prog.module_func(f.module)
+        for y in mf.node.body:
+            if isinstance(y, ast.Assign) and len(y.targets) == 1 and isinstance(y.targets[0], ast.Name):
+                mod_consts[y.targets[0].id] = y.value
+        for c in body_walk(f.node):
+            if not (isinstance(c, ast.Compare) and len(c.ops) == 1 and isinstance(c.ops[0], (ast.Is, ast.IsNot))):
+                continue
+            n += 1
+            for side, other in ((c.comparators[0], c.left), (c.left, c.comparators[0])):
+                v = side
+                if isinstance(v, ast.Name) and v.id in mod_consts and v.id not in local_defs(f) and v.id not in f.params():
+                    v = mod_consts[v.id]
+                by_value = None
+                if isinstance(v, ast.Constant) and isinstance(v.value, int) and -5 <= v.value <= 256:
+                    continue  # CPython keeps one object per small int (and bool): identity survives the round trip
+                if isinstance(v, ast.Constant) and isinstance(v.value, str) and len(v.value) <= 1:
+                    continue  # single characters / the empty string are shared objects as well
+                if isinstance(v, ast.Constant) and isinstance(v.value, (int, float, str, bytes)) and not isinstance(v.value, bool):
+                    by_value = f"the {type(v.value).__name__} `{norm(side)}`"
+                elif isinstance(v, ast.Attribute) and norm(v) in ("np.inf", "np.nan", "numpy.inf", "numpy.nan", "math.inf", "math.nan", "np.NINF", "np.PINF", "np.NaN", "np.Inf"):
+                    by_value = f"the float object `{norm(side)}`"
+                elif isinstance(v, ast.Call) and norm(v.func) == "float":
+                    by_value = f"the float `{norm(side)}`"
+                elif isinstance(v, ast.UnaryOp) and isinstance(v.operand, ast.Attribute) and norm(v.operand) in ("np.inf", "math.inf"):
+                    by_value = f"the float `{norm(side)}`"
+                if by_value is None:
+                    continue
+                state = any(isinstance(x, ast.Attribute) for x in ast.walk(other))
+                obs.append(ctx.ob("R19.7", f, c, status=VIOLATION if state else INCONCLUSIVE, detail=f"`{norm(c)[:80]}` tests identity with {by_value}: a snapshot stores such values by value, so after pickle_load `{norm(other)[:40]}` is an equal but different object and the test gives the opposite answer - the restored tree decides differently from the one that was dumped", construct=f"{f.short}:is:{norm(side)}"))
+                break
+    obs.append(ctx.ob("R19.7", None, None, subject="pyhms", loc="-", detail=f"{n} identity tests, none against a number / string / float constant", construct="identity", trivial=True))
+    return obs
+
+
+RULES = [("R19.7", r19_7, 1), ("R19.1", r19_1, 5), ("R19.2", r19_2, 2), ("R19.3", r19_3, 2), ("R19.4", r19_4, 1), ("R19.5", r19_5, 1), ("R19.6", r19_6, 1)]
